@@ -209,11 +209,11 @@ impl Engine for C12 {
 
     fn info(&self) -> EngineInfo {
         EngineInfo {
-            rule: "one run = a generated program (optionally importing 1-2 generated inline modules) is evaluated from source in VM A, compiled to bytecode through serde_json over a FaultyWriter onto the simulated disk (short writes, EINTR, EIO at the k-th call, disk full at the k-th call), the file is optionally torn (truncated at a tape-chosen offset; thorough tier additionally sweeps 64 evenly spaced offsets) or one global reference in it is renamed to an undefined module, and it is loaded back through a FaultyReader (EINTR, 1-byte reads, EIO at the k-th call) with Precompiled::run_expr into the same VM, a fresh VM with the helper modules, or a fresh VM without them (restart: only the disk survives). Non-trivial = the bytecode was produced and at least one fault fired or the target was a fresh VM; distinct = distinct hash of (workload, decision tape).",
+            rule: "one run = a generated program (optionally importing 1-2 generated inline modules) is evaluated from source in VM A, compiled to bytecode through serde_json over a FaultyWriter onto the simulated disk (short writes, EINTR, EIO at the k-th call, disk full at the k-th call), the file is optionally torn (truncated at a tape-chosen offset; thorough tier additionally sweeps 64 evenly spaced offsets) or one global reference in it is renamed to an undefined module, or one shared-node reference is made dangling, or one scalar gets the wrong JSON type, and it is loaded back through a FaultyReader (EINTR, 1-byte reads, EIO at the k-th call) with Precompiled::run_expr into the same VM, a fresh VM with the helper modules, or a fresh VM without them (restart: only the disk survives). Non-trivial = the bytecode was produced and at least one fault fired or the target was a fresh VM; distinct = distinct hash of (workload, decision tape).",
             real: vec!["compile_to_bytecode / Precompiled::run_expr / load_bytecode, SeSeed/DeSeed, serde derives of CompiledModule, new_global_thunk, VM execution of the loaded module, serde_json"],
             stubbed: vec!["the disk (a Vec<u8>)", "io::Write / io::Read given to serde_json (fault injecting)", "process restart = a second VM in the same process"],
             not_exercised: vec!["bincode or other serde formats", "file system", "std.io"],
-            fault_kinds: vec!["write (EINTR / short write, per call)", "read (EINTR / 1-byte read, per call)", "fault_write_eio", "fault_write_enospc", "fault_read_eio", "truncate (torn file)", "undefined_global (renamed module reference)", "missing_module (fresh VM without the imported inline module)"],
+            fault_kinds: vec!["write (EINTR / short write, per call)", "read (EINTR / 1-byte read, per call)", "fault_write_eio", "fault_write_enospc", "fault_read_eio", "truncate (torn file)", "undefined_global (renamed module reference)", "dangling_reference (a shared-node reference of the stored form points to a node that is not in the file)", "wrong_type_scalar (one number replaced by a string or one string by a number)", "missing_module (fresh VM without the imported inline module)"],
             assumptions: vec![
                 "only faults the property names are expected to produce an error: truncation, I/O errors, undefined references; arbitrary bit flips are not injected (a flipped operand is legal bytecode)",
                 "float literals in generated programs are exactly representable so that JSON round-trips them",
@@ -250,7 +250,9 @@ impl Engine for C12 {
             (g.hoisted.concat(), b)
         };
         let prog = format!("{}{}{}{}\n", gen::PREAMBLE, imports, hoisted, body);
-        let fault_class = rng.below(10);
+        // 10/11: single-field corruptions of the stored form (dangling shared-node reference,
+        // scalar of the wrong JSON type)
+        let fault_class = rng.below(12);
         json!({
             "prelude": rng.chance(1, 10),
             "modules": modules,
@@ -346,6 +348,9 @@ impl Engine for C12 {
             }
         };
         run::count("bytes_written", bytes.len() as u64);
+        if let Ok(path) = std::env::var("SIM_DUMP_BYTECODE") {
+            let _ = std::fs::write(path, &bytes);
+        }
 
         // ---- choose where to load
         let has_imports = w["modules"].as_array().map_or(false, |m| !m.is_empty());
@@ -448,6 +453,87 @@ impl Engine for C12 {
                 }
                 probe(vm, "undefined_global")?;
             }
+            10 | 11 => {
+                let mut v: Value = serde_json::from_slice(&bytes).map_err(|e| Violation::new("harness", e.to_string()))?;
+                // paths of all `{"Reference": n}` nodes / all number and string leaves
+                fn collect(v: &Value, path: &mut Vec<String>, refs: &mut Vec<Vec<String>>, leaves: &mut Vec<Vec<String>>) {
+                    match v {
+                        Value::Object(m) => {
+                            if m.len() == 1 && m.get("Reference").map_or(false, |r| r.is_u64()) {
+                                refs.push(path.clone());
+                            }
+                            for (k, x) in m {
+                                path.push(k.clone());
+                                collect(x, path, refs, leaves);
+                                path.pop();
+                            }
+                        }
+                        Value::Array(a) => {
+                            for (i, x) in a.iter().enumerate() {
+                                path.push(i.to_string());
+                                collect(x, path, refs, leaves);
+                                path.pop();
+                            }
+                        }
+                        Value::Number(_) | Value::String(_) => leaves.push(path.clone()),
+                        _ => {}
+                    }
+                }
+                fn at<'a>(v: &'a mut Value, path: &[String]) -> &'a mut Value {
+                    let mut cur = v;
+                    for p in path {
+                        cur = match cur {
+                            Value::Array(a) => &mut a[p.parse::<usize>().unwrap_or(0)],
+                            other => &mut other[p.as_str()],
+                        };
+                    }
+                    cur
+                }
+                let (mut refs, mut leaves) = (Vec::new(), Vec::new());
+                collect(&v, &mut Vec::new(), &mut refs, &mut leaves);
+                let must_fail;
+                let what;
+                if fault_class == 10 && !refs.is_empty() {
+                    let k = run::choose("which_reference", refs.len() as u32) as usize;
+                    *at(&mut v, &refs[k]) = json!({ "Reference": 1_000_000 + k as u64 });
+                    run::count("fault_dangling_reference", 1);
+                    must_fail = true;
+                    what = format!("the shared-node reference at /{} points to a node that is not in the file", refs[k].join("/"));
+                } else if !leaves.is_empty() {
+                    let k = run::choose("which_leaf", leaves.len() as u32) as usize;
+                    let leaf = at(&mut v, &leaves[k]);
+                    *leaf = if leaf.is_number() { json!("corrupt") } else { json!(-7) };
+                    run::count("fault_wrong_type_scalar", 1);
+                    must_fail = false;
+                    what = format!("the scalar at /{} has the wrong JSON type", leaves[k].join("/"));
+                } else {
+                    return Ok(());
+                }
+                let corrupted = serde_json::to_vec(&v).unwrap_or_default();
+                run::set_context(format!("load of a corrupted file: {}", what));
+                let mut fired = false;
+                match load_precompiled(vm, name, &corrupted, benign_r, u64::MAX, &mut fired) {
+                    LoadResult::Ok(s) if must_fail => {
+                        return Err(Violation::new(
+                            "undefined-reference-accepted",
+                            format!("{} but it loaded successfully: {}", what, s),
+                        ))
+                    }
+                    LoadResult::Ok(s) => {
+                        // a scalar nobody reads (or a string that may be anything): then the result
+                        // must still be the source's
+                        if s != expected {
+                            return Err(Violation::new(
+                                "corrupted-file-accepted-with-different-result",
+                                format!("{}; it loaded and gave `{}` instead of `{}`", what, clip(&s), clip(&expected)),
+                            ));
+                        }
+                        run::count("wrong_type_scalar_ignored", 1);
+                    }
+                    LoadResult::Err(_) => {}
+                }
+                probe(vm, "corrupted")?;
+            }
             _ => {
                 let eio_at = if fault_class == 6 { pos * 3 } else { u64::MAX };
                 let mut fired = false;
@@ -494,7 +580,7 @@ impl Engine for C12 {
         }
         let fired_any = run::with(|s| s.tape.fired.values().sum::<u64>() > 0);
         run::with(|s| {
-            s.stats.nontrivial = fired_any || target != "same" || fault_class >= 4 && fault_class <= 8;
+            s.stats.nontrivial = fired_any || target != "same" || fault_class >= 4 && fault_class != 9;
             s.stats.sample = Some(json!({
                 "prog": clip(src), "modules": w["modules"].as_array().map(|m| m.len()), "fault_class": fault_class,
                 "target": target, "bytes": bytes.len(), "expected": clip(&expected)
